@@ -2,7 +2,12 @@
 """Run the registered checks against the seeded changes: apply seeded/<id>/patch.diff to /repo, run the check(s),
 revert.  Writes seeded/results.json and the `detected_by` list of each meta.json.
 
-  tools/run_all_seeded.py [--tier quick|thorough] [--seed N] [id ...]      (default: all ids, quick, seed 11)
+  tools/run_all_seeded.py [--tier quick|thorough] [--seed N] [--repo PATH] [--out FILE] [id ...]
+                                                                            (default: all ids, quick, seed 11, /repo)
+
+With --repo the patches are applied to another checkout of the repository (a scratch worktree / snapshot) and the checks
+run through the driver's VERIF_REPO development mode (a copy of the harness built against that checkout), so the matrix
+can be produced in the background while /repo and /verif/harness are being edited.
 
 The checks run are the seeded change's own property plus meta.json["also_checks"] if present."""
 import json, os, subprocess, sys, time
@@ -11,17 +16,26 @@ ROOT = os.path.dirname(os.path.dirname(os.path.abspath(__file__)))
 SEEDED = os.path.join(ROOT, "seeded")
 
 
-def sh(cmd, cwd="/repo", env=None):
+REPO = "/repo"
+
+
+def sh(cmd, cwd=None, env=None):
+    cwd = cwd or REPO
     p = subprocess.run(cmd, shell=True, cwd=cwd, stdout=subprocess.PIPE, stderr=subprocess.STDOUT, text=True, env=env)
     return p.returncode, p.stdout
 
 
 def main():
+    global REPO
     args = sys.argv[1:]
-    tier, seed, ids = "quick", "11", []
+    tier, seed, ids, outp = "quick", "11", [], None
     while args:
         if args[0] == "--tier":
             tier = args[1]; args = args[2:]
+        elif args[0] == "--repo":
+            REPO = args[1]; args = args[2:]
+        elif args[0] == "--out":
+            outp = args[1]; args = args[2:]
         elif args[0] == "--seed":
             seed = args[1]; args = args[2:]
         else:
@@ -30,8 +44,8 @@ def main():
         ids = sorted(d for d in os.listdir(SEEDED) if os.path.isdir(os.path.join(SEEDED, d)))
     rc, out = sh("git status --porcelain --untracked-files=no")
     if out.strip():
-        print("/repo has uncommitted changes to tracked files; refusing"); return 2
-    resp = os.path.join(SEEDED, "results.json")
+        print(REPO, "has uncommitted changes to tracked files; refusing"); return 2
+    resp = outp or os.path.join(SEEDED, "results.json")
     results = json.load(open(resp)) if os.path.exists(resp) else {}
     for mid in ids:
         d = os.path.join(SEEDED, mid)
@@ -46,6 +60,8 @@ def main():
         try:
             for chk in checks:
                 env = dict(os.environ); env["VERIF_SEED"] = seed
+                if REPO != "/repo":
+                    env["VERIF_REPO"] = REPO
                 t = time.time()
                 rc, out = sh("./check %s --tier %s" % (chk, tier), cwd=ROOT, env=env)
                 sigs = sorted(set(l.strip()[len("signature: "):] for l in out.splitlines() if l.strip().startswith("signature:")))
@@ -55,12 +71,13 @@ def main():
                 print(mid, chk, tier, "rc", rc, "DETECTED" if det else "missed", sigs[:2], flush=True)
         finally:
             sh("git checkout -- .")
-        meta["detected_by"] = sorted(k for k, v in results[mid].items() if isinstance(v, dict) and v.get("detected"))
-        json.dump(meta, open(os.path.join(d, "meta.json"), "w"), indent=1)
+        if outp is None:
+            meta["detected_by"] = sorted(k for k, v in results[mid].items() if isinstance(v, dict) and v.get("detected"))
+            json.dump(meta, open(os.path.join(d, "meta.json"), "w"), indent=1)
         json.dump(results, open(resp, "w"), indent=1, sort_keys=True)
     rc, out = sh("git status --porcelain --untracked-files=no")
     if out.strip():
-        print("WARNING: /repo not clean after the run:", out)
+        print("WARNING:", REPO, "not clean after the run:", out)
     return 0
 
 
